@@ -216,6 +216,12 @@ def check_binders(run: Run, ctx: TermCtx, m, cls: ClassInfo, rule: str) -> None:
             whole = contains(t, lambda s: s[0] == "app" and s[1] == ("global", "ast.walk") and len(s[2]) == 1 and s[2][0][0] == "attr" and s[2][0][2] == "target")
             ok_t = ok_t or (contains(t, lambda s: s == ("attr", nodep, "generators")) and whole and contains(t, lambda s: s[0] == "attr" and s[2] == "id"))
         whole_visit = any(isinstance(c_.func, ast.Attribute) and c_.func.attr == "generic_visit" for c_ in calls_in(h))
+        if not ok_t:
+            from ..lib import mentions_generator as _mg
+
+            for c in pushes:
+                if _mg(m, c.args[0]):
+                    raise AnalysisError(f"the names a comprehension binds are collected by the generator {_mg(m, c.args[0])}(..): which names end up in the frame cannot be read from this shape")
         run.check(ok_t, rule, h, h.node, "frame holds every Name inside every generator target (tuple targets included)", "the comprehension frame is not built from all Name nodes found by walking each generator's target: tuple-unpacked loop variables (for pt, eta in ..) are not protected and are replaced by a captured value of the same name", "[n.id for g in node.generators for n in ast.walk(g.target) if isinstance(n, ast.Name)]")
         if whole_visit:
             _paired(run, ctx, h, rule)  # piece-by-piece handlers: pairing around the element is judged by check_comprehension_shadow
